@@ -68,3 +68,39 @@ func TestDev(t *testing.T) {
 		t.Fail()
 	}
 }
+
+// C07_DEV=reunits: one line per (definer, body, parameter kind) of the re-entrancy space: do call,
+// eval-of-macroexpand and the model agree for the activations (x) ((f x)) ?
+func TestDevReentrancyUnits(t *testing.T) {
+	if os.Getenv("C07_DEV") != "reunits" {
+		t.Skip()
+	}
+	acts := []string{"x", "(f x)"}
+	for _, definer := range definers {
+		for _, d := range reDefs() {
+			if d.only != "" && d.only != definer {
+				continue
+			}
+			line := fmt.Sprintf("%-9s %-34s", definer, d.id)
+			for _, s := range reShapes {
+				var calls, evals, models []string
+				for _, a := range acts {
+					c := s.call(a, bFor(a))
+					calls = append(calls, c)
+					evals = append(evals, "(eval (macroexpand '"+c+"))")
+					models = append(models, d.expand(s, a, bFor(a)))
+				}
+				rc, re, rm := runFresh(reProgram(definer, s, d, calls)), runFresh(reProgram(definer, s, d, evals)), runFresh(reProgram(definer, s, d, models))
+				v := "ok"
+				if rc.key() != rm.key() {
+					v = "MODEL"
+				}
+				if rc.key() != re.key() {
+					v += "+EVAL"
+				}
+				line += fmt.Sprintf(" %s%v:%s", s.kind, s.hasB, v)
+			}
+			fmt.Println(line)
+		}
+	}
+}
